@@ -1,6 +1,7 @@
 (* Props_C03.v — C03: each query gets at most one outcome, and the right one (model: Client.v = ClientBehaviour as lib.rs drives it; ops = arbitrary lists of get / cancel / connection / incoming message / report / store completion / clock / poll).
    Statements restated verbatim from the proof files and closed by `exact`; nothing else is proved here. *)
 From BS Require Import Bytes Cid Proto Types Wantlist Client Client_proofs Client_proofs2 Client_proofs3 Client_proofs4 Client_proofs5 Client_proofs6.
+From BS Require Import Tie_clienttask.  (* tie: Client.handle_task_result IS the interpretation of the extracted arms of `match task_result` in ClientBehaviour::poll *)
 Open Scope N_scope.
 
 Theorem C03_fresh_ids sdh ops1 oc :
